@@ -55,11 +55,12 @@ class SenderTap:
 
 def make_sender(w, case, out):
     env = w.env
-    size = case.get('segments', 4) * MSS
+    size = case.get('segments', 4) * MSS + case.get('tail', 0)
     pace = case.get('pace')
+    msg = case.get('msg', MSS)
     flow = Flow(flow_id=case.get('fid', 1), src='h0', dst='h1', start_time=case.get('start', 0) or None,
                 finish_time=1e12, size=size,
-                arrival_dist=(lambda: pace) if pace else None, size_dist=(lambda: MSS) if pace else None)
+                arrival_dist=(lambda: pace) if pace else None, size_dist=(lambda: msg) if pace else None)
     if case.get('cc', 'reno') == 'cubic':
         cc = TCPCubic()
     else:
